@@ -162,3 +162,21 @@ Theorem parameter_property_assigned_once : forall derived params fields body out
   count_occ Z.eq_dec (flat_map (fun s => match s with SAssignParam n => [n] | _ => [] end) out) x = 1%nat.
 Proof. exact param_assigned_once_all. Qed.
 Print Assumptions parameter_property_assigned_once.
+
+(* names in an enum body resolve against enum members first (this block and the
+   sibling blocks of a merged enum), then lexically; the exports of a namespace
+   merged with the enum are never captured -- findSymbol's rule equals
+   TypeScript's resolveName rule for every name *)
+Theorem enum_name_resolution_is_typescript_rule : forall block exported n,
+  NoDup (map fst exported) -> (forall m, In m block -> lookup_flag m exported = Some true) ->
+  resolve_name block exported n = spec_resolve (map fst (filter snd exported)) n.
+Proof. exact resolve_is_spec. Qed.
+Print Assumptions enum_name_resolution_is_typescript_rule.
+
+(* ... hence the run-time value of a name in an initialiser, given the enum object
+   and the OUTER environment, is the value the specification's lookup order gives *)
+Theorem enum_name_value_with_outer_environment : forall block exported obj outer n,
+  NoDup (map fst exported) -> (forall m, In m block -> lookup_flag m exported = Some true) ->
+  rt_name block exported obj outer n = spec_name (map fst (filter snd exported)) obj outer n.
+Proof. exact rt_name_is_spec. Qed.
+Print Assumptions enum_name_value_with_outer_environment.
